@@ -94,8 +94,15 @@ fn i32x(r: &mut StdRng) -> I32S {
         _ => r.gen_range(-70000..70000),
     })
 }
+thread_local! {
+    /// --stored: sprites meant for the TLA+ byte-level decoder (TLC integers are 32-bit signed: no value >= 2^31)
+    static DECODABLE: std::cell::Cell<bool> = const { std::cell::Cell::new(false) };
+}
 fn u32x(r: &mut StdRng) -> U32S {
+    let dec = DECODABLE.with(|c| c.get());
     U32S(match r.gen_range(0..6) {
+        0 if dec => 65536,
+        1 if dec => (1 << 31) - 2,
         0 => u32::MAX,
         1 => 1 << 31,
         2 => (1 << 31) - 1,
@@ -289,12 +296,12 @@ pub fn gen_sprite(r: &mut StdRng, k: &Knobs) -> Program {
     if use_tiles {
         let n = r.gen_range(1..=2);
         for i in 0..n {
-            let id = if r.gen_bool(0.6) { i as u32 } else if r.gen_bool(0.6) { i as u32 + r.gen_range(1..4u32) } else if r.gen_bool(0.5) { r.gen_range(0..1000u32) * 2 + i as u32 } else { *[65536u32, 70001, 0x7fff_ffff, 0xffff_fffe].choose(r).unwrap() + i as u32 };
+            let id = if r.gen_bool(0.6) { i as u32 } else if r.gen_bool(0.6) { i as u32 + r.gen_range(1..4u32) } else if r.gen_bool(0.5) { r.gen_range(0..1000u32) * 2 + i as u32 } else { *(if DECODABLE.with(|c| c.get()) { [65536u32, 70001, 0x7fff_fff0, 0x7fff_0000] } else { [65536u32, 70001, 0x7fff_ffff, 0xffff_fffe] }).choose(r).unwrap() + i as u32 };
             if tilesets.iter().any(|t| t.0 == id) {
                 continue;
             }
             let (tw, th) = if k.bigmap {
-                *[(256u16, 1u16), (1, 256), (128, 2), (2, 128), (255, 1), (1, 300)].choose(r).unwrap()
+                *[(256u16, 1u16), (1, 256), (128, 2), (2, 128), (255, 1), (1, 300), (1, 1), (1, 1), (2, 1)].choose(r).unwrap()
             } else if k.max_wh > 1000 && r.gen_bool(0.5) {
                 *[(2u16, 2u16), (255, 3), (3, 255), (16, 16), (1, 1000), (4096, 1)].choose(r).unwrap()
             } else if r.gen_bool(0.15) {
@@ -437,7 +444,11 @@ pub fn gen_sprite(r: &mut StdRng, k: &Knobs) -> Program {
                     let mut mh = r.gen_range(1..=3u16);
                     if k.bigmap {
                         // enough tiles for the far end to lie beyond pixel 65535
-                        if tw >= th {
+                        if tw <= 2 && th == 1 {
+                            // more than 2^16 stored tiles (row-major indices beyond 16 bits)
+                            mw = r.gen_range(257..261);
+                            mh = r.gen_range(256..260);
+                        } else if tw >= th {
                             mw = (65536 / tw as u32) as u16 + r.gen_range(1..4);
                             mh = r.gen_range(1..=2);
                         } else {
@@ -630,7 +641,7 @@ fn spread(r: &mut StdRng, frames: &mut [FrameP]) {
 pub fn variant(r: &mut StdRng, p: &Program, which: usize) -> (Program, String) {
     let mut q = p.clone();
     let label;
-    match which % 12 {
+    match which % 13 {
         0 => {
             label = "cel storage (raw / zlib level / stored blocks)";
             for f in &mut q.frames {
@@ -811,6 +822,26 @@ pub fn variant(r: &mut StdRng, p: &Program, which: usize) -> (Program, String) {
                 }
             }
         }
+        12 => {
+            label = "padding that makes a chunk's data an exact multiple of 64 KiB (or one byte off)";
+            q.normalize();
+            let enc = crate::prog::encode(&q);
+            let sizes: Vec<&Field> = enc.fields.iter().filter(|f| f.name.ends_with(".size")).collect();
+            if let Some(f) = sizes.choose(r) {
+                // name = f<frame>.c<chunk>.<kind>.size ; value = 6 + data length
+                let parts: Vec<&str> = f.name.split('.').collect();
+                let fi: usize = parts[0][1..].parse().unwrap_or(0);
+                let ci: usize = parts[1][1..].parse().unwrap_or(0);
+                let cur = read_le(&enc.bytes, f.off, 4) as i64 - 6;
+                let k = r.gen_range(1..=2i64);
+                let target = 65536 * k + *[0i64, 0, 0, -1, 1].choose(r).unwrap();
+                let ok_kind = fi < q.frames.len() && ci < q.frames[fi].chunks.len() && !matches!(q.frames[fi].chunks[ci], Chunk::Raw(_));
+                if ok_kind && target > cur {
+                    let had = q.frames[fi].pads[ci] as i64;
+                    q.frames[fi].pads[ci] = (had + target - cur) as u32;
+                }
+            }
+        }
         _ => {
             label = "all choices at once";
             let mut cur = q.clone();
@@ -839,6 +870,7 @@ pub fn gen_cmd(args: &[String]) {
     let twice = crate::flag(args, "--twice");
     // --stored: all zlib data as stored deflate blocks (decodable by the TLA+ byte-level decoder)
     let stored = crate::flag(args, "--stored");
+    DECODABLE.with(|c| c.set(stored));
     let mut out = Out::new(arg(args, "--out").unwrap_or("-"));
     let k = knobs(profile);
     let mut r = StdRng::seed_from_u64(seed ^ 0x5eed_0000);
@@ -1033,6 +1065,49 @@ pub fn faults_cmd(args: &[String]) {
                                 cc["meta"] = meta;
                                 out.ev(&cc);
                             }
+                        }
+                    }
+                }
+            }
+            "kindwide" => {
+                // the same inflated value in EVERY chunk of one kind at once (one field, or two fields of that kind together):
+                // effects that stay within budget for one chunk add up over several
+                let enc = enc.expect("kindwide faults need a program");
+                let mut groups: std::collections::BTreeMap<(String, String), Vec<&Field>> = Default::default();
+                for f in enc.fields.iter().filter(|f| f.width > 0 && matches!(f.class, "dim" | "size" | "count" | "len")) {
+                    let parts: Vec<&str> = f.name.split('.').collect();
+                    if parts.len() >= 4 && parts[1].starts_with('c') {
+                        groups.entry((parts[2].to_string(), parts[3..].join("."))).or_default().push(f);
+                    }
+                }
+                let kinds: std::collections::BTreeSet<String> = groups.keys().map(|k| k.0.clone()).collect();
+                for kind in kinds {
+                    let sufs: Vec<&(String, String)> = groups.keys().filter(|k| k.0 == kind).collect();
+                    let mut sets: Vec<Vec<&(String, String)>> = sufs.iter().map(|s| vec![*s]).collect();
+                    for i in 0..sufs.len() {
+                        for j in (i + 1)..sufs.len() {
+                            sets.push(vec![sufs[i], sufs[j]]);
+                        }
+                    }
+                    sets.truncate(40);
+                    for set in sets {
+                        for vi in 0..3 {
+                            let mut b = bytes.clone();
+                            let mut names = vec![];
+                            for key in &set {
+                                for f in &groups[*key] {
+                                    let max: u64 = if f.width == 1 { 0xFF } else if f.width == 2 { 0xFFFF } else { 0xFFFF_FFFF };
+                                    let v = [max, max / 2 + 1, if f.width >= 2 { 4096 } else { 64 }][vi];
+                                    for i in 0..f.width {
+                                        if f.off + i < b.len() {
+                                            b[f.off + i] = ((v >> (8 * i)) & 0xFF) as u8;
+                                        }
+                                    }
+                                }
+                                names.push(format!("{}.{}", key.0, key.1));
+                            }
+                            let meta = json!({"gen": "g5a3", "fields": names, "value_index": vi, "instances": groups[set[0]].len()});
+                            out.ev(&json!({"id": format!("{}|all:{}#{}", id, names.join("&"), vi), "mode": mode, "hex": hex_encode(&b), "meta": meta}));
                         }
                     }
                 }
